@@ -84,6 +84,14 @@ def opCkt (args : List String) : String :=
     showC (skinZint csqrt besselRatio (fun kr => Cx.abs kr < lim)
       (cxOfReal (parseF omg)) (cxOfReal Pmn.Const.mu0.toFloat) (cxOfReal (parseF sigma))
       (cxOfReal (parseF r)) (cxOfReal twoPi))
+  | "dist" :: nh :: rest =>
+    -- nh halves, each: has(0/1) z.re z.im len  →  impedance of the pulse
+    let rec go : Nat → List String → List (Option CF × CF)
+      | 0, _ => []
+      | n + 1, h :: zr :: zi :: l :: r =>
+        ((if h == "1" then some (⟨parseF zr, parseF zi⟩ : CF) else none), cxOfReal (parseF l)) :: go n r
+      | _, _ => []
+    showC (distImpedance (go (parseN nh) rest))
   | _ => "bad-op"
 
 end Driver
